@@ -248,11 +248,18 @@ def j_weighted_std(rec, key="r"):
 
 
 def moment_exact_tol(X, p, u, ty):
+    """exact central moment of order p and its bound 4(n+4p+8)u(1/n)sum(|x-mean|+2delta)^p, delta=(n+2)u sum|x|/n,
+    in integer arithmetic (all operands are dyadic rationals: one common power-of-two denominator)"""
     n = len(X)
-    m = sum(X) / n
-    exact = sum((x - m) ** p for x in X) / n
-    delta = (n + 2) * u * sum(abs(x) for x in X) / n
-    A = sum((abs(x - m) + 2 * delta) ** p for x in X) / n
+    Dn = max(x.denominator for x in X)
+    Xi = [x.numerator * (Dn // x.denominator) for x in X]
+    S = sum(Xi)
+    d = [n * xi - S for xi in Xi]          # (x_i - mean) * n * Dn
+    scale = n * Dn
+    exact = F(sum(di ** p for di in d), n * scale ** p)
+    U = u.denominator                       # u = 1/U
+    e_num = 2 * (n + 2) * sum(abs(xi) for xi in Xi)   # 2*delta*scale*U
+    A = F(sum((abs(di) * U + e_num) ** p for di in d), n * (scale * U) ** p)
     tol = SAFETY * (n + 4 * p + 8) * u * A + n * ETA[ty]
     if A * n > FMAX[ty] / 16:
         return None, None   # the power sums leave the exponent range of the element type
